@@ -138,6 +138,7 @@ pub fn selftest() -> bool {
         preemptions: usize::MAX,
         deviations: 0,
         max_execs: 1_000_000,
+        delay: false,
     };
     let p0 = Bounds { preemptions: 0, ..unb };
     let cases: Vec<(Toy, Bounds, bool)> = vec![
